@@ -1,4 +1,6 @@
 import Txtpp.Lemmas.TagInject
+import Txtpp.Lemmas.InjectSpec
+import Txtpp.Model.Pp
 /-!
 # Property C14 — tags: stored once, substituted once, leftmost-first, never re-expanded
 
@@ -89,6 +91,57 @@ theorem inject_order_irrelevant (l : Option Str) (s1 s2 : List (Str × Str)) (le
 theorem inject_only_removes (t : TagState) (le line : Str) :
     (t.injectLE le line).2.listening = t.listening ∧ (t.injectLE le line).2.stored.Sublist t.stored :=
   ⟨rfl, List.filter_sublist⟩
+
+/-- `inject_tags`, declaratively. With `ms` the matches (first occurrence of every stored name that
+occurs in the line) sorted by position and `sel` the greedy left-to-right selection:
+the result is the line with exactly the selected occurrences replaced by their line-ending-
+normalised values (no indentation added, values not scanned again); exactly the selected names
+are deleted; every selected occurrence is the *first* occurrence of a stored name; selected
+occurrences are increasing and do not overlap; and every occurrence that is not selected starts
+inside an earlier selected one (it is overlapped by an earlier substitution and left alone). -/
+theorem inject_spec (t : TagState) (le line : Str) :
+    let ms := sortM (matchesOf t.stored line)
+    let sel := select ms 0
+    (t.injectLE le line).1 = substOut (replaceLE le) line sel 0 ∧
+    (t.injectLE le line).2.stored = t.stored.filter (fun kv => !(sel.map (·.2.1)).contains kv.1) ∧
+    (t.injectLE le line).2.listening = t.listening ∧
+    (∀ m ∈ sel, (m.2.1, m.2.2) ∈ t.stored ∧ m.2.1 <+: line.drop m.1 ∧ ∀ j, j < m.1 → ¬ m.2.1 <+: line.drop j) ∧
+    sel.Pairwise (fun a b => a.1 + a.2.1.length ≤ b.1) ∧
+    (∀ m ∈ ms, m ∉ sel → ∃ s ∈ sel, s.1 ≤ m.1 ∧ m.1 < s.1 + s.2.1.length) :=
+  Txt.inject_spec t (replaceLE le) line
+
+/-- a waiting tag captures the output of the next output-producing directive: the raw output goes
+to the tag and nothing is written -/
+theorem capture_next_output {W : Type} (le : Str) (s : PpState W) (ws raw tag : Str) (h : s.tags.listening = some tag) :
+    (routeOutput le s ws raw).2 = none ∧ (routeOutput le s ws raw).1.tags.listening = none ∧
+    (tag, raw) ∈ (routeOutput le s ws raw).1.tags.stored := by
+  simp [routeOutput, TagState.tryStore, h]
+
+/-- with no tag waiting the output is written (formatted), the tag store is unchanged -/
+theorem no_capture_without_tag {W : Type} (le : Str) (s : PpState W) (ws raw : Str) (h : s.tags.listening = none) :
+    routeOutput le s ws raw = (s, some (formatOutput le ws raw)) := by
+  simp [routeOutput, TagState.tryStore, h]
+
+/-- reaching the end of the file with a tag waiting or stored is an error (outside clean mode) -/
+theorem eof_unused_is_error {W : Type} (Wd : World W) (mode : Mode) (hm : mode ≠ .clean) (le : Str) (first trailing : Bool)
+    (w : W) (lines : List Str) (out : Str) (w' : W)
+    (h : ppPass Wd mode le first trailing w lines true = .ok out w') :
+    ∃ s, Refine.machine (txtppSem Wd mode le) trailing ⟨TagState.empty, if first then .firstExec else .exec, w⟩ lines = some (s, out) ∧
+      s.tags.hasTags = false := by
+  unfold ppPass at h
+  simp only [Bool.not_true, Bool.false_eq_true, if_false] at h
+  cases hmach : Refine.machine (txtppSem Wd mode le) trailing ⟨TagState.empty, if first then .firstExec else .exec, w⟩ lines with
+  | none => simp [hmach] at h
+  | some r =>
+    obtain ⟨s, o⟩ := r
+    simp only [hmach] at h
+    have hne : (mode != Mode.clean) = true := by simpa using hm
+    cases hp : s.pm <;> simp only [hp] at h
+    · cases ht : s.tags.hasTags <;> simp [ht, hne] at h
+      exact ⟨s, by rw [h.1], ht⟩
+    · cases ht : s.tags.hasTags <;> simp [ht, hne] at h
+      exact ⟨s, by rw [h.1], ht⟩
+    · simp at h
 
 /-! Non-vacuity / worked examples (kernel evaluation) -/
 example : ((TagState.mk none [(['a'], ['X']), (['b'], ['p', '\n', 'q'])]).injectLE ['\r', '\n'] ['a', 'a', 'b', '-']).1
